@@ -228,7 +228,7 @@ class Ctx(object):
         status = 0
         for fid, (cnt, f, detail) in sorted(self.known.items()):
             out_lines.append("KNOWN-FINDING: property=%s %s: %s [seen %d times this run]" % (self.prop, fid, f.get("what", "")[:220], cnt))
-        rep_dir = os.path.join(VERIF, "replays")
+        rep_dir = os.environ.get("VERIF_REPLAY_DIR") or os.path.join(VERIF, "replays")
         os.makedirs(rep_dir, exist_ok=True)
         reported = 0
         for v in self.violations:
@@ -274,7 +274,7 @@ class Ctx(object):
             "wall_s": round(wall, 2),
             "violations": int(nviol),
         }
-        d = os.path.join(VERIF, "evidence")
+        d = os.environ.get("VERIF_EVIDENCE_DIR") or os.path.join(VERIF, "evidence")
         os.makedirs(d, exist_ok=True)
         tmp = os.path.join(d, ".%s.json.tmp" % self.prop)
         with open(tmp, "w") as fh:
